@@ -362,7 +362,14 @@ def run_gpio(case):
 
 
 def subchecks():
+    from checks import C19           # the UART and Timer clients named in this property's anchors: C19's runners judge their event lines,
+    #                                  pending bits (cleared by software's write-one only), irq = OR(pending & enable) cycle by cycle
     return [
+        Sub("uart-client", C19.run_uartcore, strategy=C19.st_uartcore, examples=(144, 4000),
+            rule="UART core: tx/rx event sources follow the FIFO status, pending bits set by the edge and cleared by a written one only "
+                 "(also with rx_fifo_rx_we, where reading RXTX pops the FIFO), irq = OR(pending & enable)"),
+        Sub("timer-client", C19.run_timer, strategy=C19.st_timer, examples=(160, 4000),
+            rule="Timer core: zero event pending / irq against the counter model under generated CSR histories"),
         Sub("manager", run_case, strategy=st_case, examples=(2500, 80000),
             rule="generated managers, trigger waveforms and CSR programs vs cycle-accurate model"),
         Sub("alignment", run_case, enum=enum_align, exhaustive=True,
